@@ -70,6 +70,40 @@ CHECKS = [
              'include all shapes 2..5 per direction.',
      'note': 'Trusted: vf/refop.py (cross-checked against discretize), '
              'scipy.constants, numpy/scipy. Grids beyond 5 cells sampled.'},
+    {'id': 'C12', 'ref': 'DESIGN.md section 3 C12',
+     'technique': 'history monitor: logged random sequences of public '
+                  'Simulation operations on up to three live objects '
+                  '(original, copies, reloads); after every operation the '
+                  'observables are compared with a memoised fresh simulation '
+                  'of the current model/survey/options (reference model = '
+                  'fresh run)',
+     'text': 'About 1500 operations per quick run (thorough ~30 000) over '
+             'compute/misfit/gradient/jvec/jtvec/get_*field/clean/copy/dict/'
+             'file/model-update; synthetic data, misfit, gradient, J v, J^T w '
+             'and fields must equal those of a fresh simulation to 1e-6 and '
+             'no operation of a valid history may raise. Five mechanisms were '
+             'found (four repaired, one recorded).',
+     'note': 'Fresh simulation evaluated once is the model; solver tol 1e-9; '
+             'sequences in which an object shares file_dir with a sibling '
+             'that wrote/cleaned are keyed to that one known mechanism.'},
+    {'id': 'C13', 'ref': 'DESIGN.md section 3 C13',
+     'technique': 'shadow-model runtime monitor over random operation '
+                  'histories on Survey/Simulation (client-boundary read-back '
+                  'after every public operation) + independent reference '
+                  'noise model, sub-cube/cut/offset/misfit oracles, seeded '
+                  'replacement of the RNG used by add_noise, pooled moment '
+                  'tests, enumerated add_noise option table',
+     'text': 'For thousands of random histories of assignments, add_noise, '
+             'select, copy, dict/file round trips and misfit evaluations on '
+             'surveys from 1x1x1 to 6x8x5 every read-back of noise_floor, '
+             'relative_error, standard_deviation, data sets, weights and '
+             'misfit agreed with an independently written shadow of the '
+             'documented noise model (bitwise for stored parameters and '
+             'sub-cubes, 16 eps for std, 1e-12 for misfit and its '
+             'permutation invariance).',
+     'note': 'Trusted: reference model in vf/c13.py, numpy. Bulk misfit '
+             'evaluations go through Simulation.from_dict of a results '
+             'dictionary; statistical checks use 10-sigma bounds.'},
     {'id': 'C14', 'ref': 'DESIGN.md section 3 C14',
      'technique': 'runtime monitoring at the client boundary with reference '
                   'models: own six property maps + complex-step derivative '
